@@ -234,6 +234,67 @@ func runReplay(bin, id, path string) replayResult {
 	return r
 }
 
+// historyReplay is a replay file whose reproducible unit is a whole shard run: the failing case
+// passes when it is run alone in a fresh process and fails after the cases that precede it.
+type historyReplay struct {
+	HistoryReplay struct {
+		Prop   string `json:"prop"`
+		Tier   string `json:"tier"`
+		Seed   int64  `json:"seed"`
+		Shard  int    `json:"shard"`
+		Shards int    `json:"shards"`
+		Sub    string `json:"sub"`
+	} `json:"history_replay"`
+	Case json.RawMessage `json:"case,omitempty"`
+}
+
+func writeHistoryReplay(path, id, tier string, seed int64, shard, nsh int, sub, casePath string) {
+	var h historyReplay
+	h.HistoryReplay.Prop, h.HistoryReplay.Tier, h.HistoryReplay.Seed = id, tier, seed
+	h.HistoryReplay.Shard, h.HistoryReplay.Shards, h.HistoryReplay.Sub = shard, nsh, sub
+	if b, err := os.ReadFile(casePath); err == nil && json.Valid(b) {
+		h.Case = b
+	}
+	b, _ := json.MarshalIndent(h, "", " ")
+	_ = os.WriteFile(path, b, 0o644)
+}
+
+// rerunShard runs one shard of a tier again, exactly as runCheck does, in a work directory of its
+// own, and reports whether the named sub-check failed again.
+func rerunShard(bin, id, tier string, seed int64, shard, nsh int, sub string, capDur time.Duration) (bool, string) {
+	work, err := os.MkdirTemp(filepath.Join(root, ".work"), "rerun-")
+	if err != nil {
+		return false, err.Error()
+	}
+	defer os.RemoveAll(work)
+	cfg := cfgFor(id)
+	rs := uint64(1) + ((uint64(seed)*64+uint64(shard))*0x9E3779B97F4A7C15)%(1<<62)
+	ctx, cancel := context.WithTimeout(context.Background(), capDur)
+	defer cancel()
+	targs := fmt.Sprintf("%q -test.run '^Test' -test.timeout 0 -test.count=1 -rapid.seed=%d -rapid.nofailfile -rapid.shrinktime=20s", bin, rs)
+	sh := "exec " + targs
+	if cfg.MemKB > 0 {
+		sh = fmt.Sprintf("ulimit -v %d; exec %s", cfg.MemKB, targs)
+	}
+	cmd := exec.CommandContext(ctx, "sh", "-c", sh)
+	cmd.SysProcAttr = &syscall.SysProcAttr{Setpgid: true}
+	cmd.Cancel = func() error { return syscall.Kill(-cmd.Process.Pid, syscall.SIGKILL) }
+	cmd.Dir = pkgDir(id)
+	cmd.Env = append(env(),
+		"VERIF_PROP="+id, "VERIF_TIER="+tier, "VERIF_OUT="+work,
+		fmt.Sprintf("VERIF_SHARD=%d", shard), fmt.Sprintf("VERIF_SHARDS=%d", nsh),
+		fmt.Sprintf("VERIF_SEED=%d", seed),
+		"GORACE=halt_on_error=1 exitcode=66")
+	ob, _ := cmd.CombinedOutput()
+	ff, _ := filepath.Glob(filepath.Join(work, fmt.Sprintf("fail-%d-*.json", shard)))
+	for _, f := range ff {
+		if strings.TrimSuffix(strings.SplitN(filepath.Base(f), "-", 3)[2], ".json") == sub {
+			return true, string(ob)
+		}
+	}
+	return false, string(ob)
+}
+
 func replayCmd(id, path string) int {
 	bin, err := build(id)
 	if err != nil {
@@ -241,6 +302,25 @@ func replayCmd(id, path string) int {
 		return 2
 	}
 	abs, _ := filepath.Abs(path)
+	if b, err := os.ReadFile(abs); err == nil && strings.Contains(string(b), "\"history_replay\"") {
+		var h historyReplay
+		if json.Unmarshal(b, &h) != nil || h.HistoryReplay.Sub == "" {
+			fmt.Fprintln(os.Stderr, "malformed history replay file")
+			return 2
+		}
+		hr := h.HistoryReplay
+		capDur := cfgFor(id).QuickCap
+		if hr.Tier == "thorough" {
+			capDur = cfgFor(id).ThoroughCap
+		}
+		failed, out := rerunShard(bin, id, hr.Tier, hr.Seed, hr.Shard, hr.Shards, hr.Sub, capDur)
+		fmt.Print(tail(out, 60))
+		if failed {
+			fmt.Printf("VIOLATION property=%s replay=%s\n", id, abs)
+			return 1
+		}
+		return 0
+	}
 	r := runReplay(bin, id, abs)
 	fmt.Print(r.Output)
 	switch r.Status {
@@ -473,6 +553,16 @@ func runCheck(id, tier string) int {
 				if r.Status == "fail" || r.Status == "died" || cfg.Flaky || scheduleDependent(id, subName) {
 					fmt.Print(tail(oc.output, 40))
 					violations = append(violations, dst)
+				} else if again, out2 := rerunShard(bin, id, tier, seed, oc.idx, nsh, subName, capDur); again {
+					// The case alone passes, the same shard run again fails at the same sub-check: the
+					// failure depends on what the earlier cases of the process left behind in the
+					// library (package-level state). The reproducible unit is the shard run.
+					hist := strings.TrimSuffix(dst, ".json") + "-history.json"
+					writeHistoryReplay(hist, id, tier, seed, oc.idx, nsh, subName, dst)
+					_ = os.Remove(dst)
+					fmt.Print(tail(out2, 40))
+					fmt.Printf("failure of sub-check %s depends on earlier cases of the same process (the case alone passes, the shard run fails again)\n", subName)
+					violations = append(violations, hist)
 				} else {
 					// did not reproduce outside rapid: treat as harness nondeterminism
 					fmt.Fprintf(os.Stderr, "shard %d failure did not replay (%s); output:\n%s\n", oc.idx, r.Status, tail(oc.output, 40))
